@@ -541,7 +541,7 @@ class Fun:
         if ab is None or sb is None:
             return None
         if ab == sb:
-            return rhs if e1.before_in_function(cfg, asg, site) else None
+            return rhs if e1.earlier_in_block(cfg, asg, site) else None
         return rhs if cfg.dominates(ab, sb) else None
 
     def _writes_to(self, var_id):
@@ -1213,6 +1213,19 @@ def _apply_eqs(S, e, rels):
     return S.expand(e)
 
 
+def _full_env(S, env, back):
+    """witness valuation including the symbols that were eliminated through equalities"""
+    out = {str(k): int(v) for k, v in env.items()}
+    for sym, val in reversed(back):
+        try:
+            v = val.subs({S.Symbol(k, integer=True, nonnegative=True): vv for k, vv in out.items()})
+            if v.is_number:
+                out[str(sym)] = int(v)
+        except Exception:
+            pass
+    return out
+
+
 def decide(S, lo, hi, dim, rels, loops, unparsed, extra_nonempty=(), disjuncts=None, blocked=None, wraps=None, free_fields=True):
     """verdict for one index against one dimension: ('PROVED'|'REFUTED'|'UNKNOWN', detail, witness)"""
     if hi is None or dim is None or lo is None:
@@ -1232,7 +1245,23 @@ def decide(S, lo, hi, dim, rels, loops, unparsed, extra_nonempty=(), disjuncts=N
         return ("UNKNOWN", blocked, None)
     if disjuncts is None:
         disjuncts = [rels]
-    allrels = [r for dj in disjuncts for r in dj]
+    # shrink the witness search: eliminate the symbols fixed by the equalities that hold on every path
+    el = _elimination(S, rels)
+    if el:
+        def red(x):
+            for sym, val in el:
+                x = x.subs(sym, val)
+            return x
+        extra = [S.Ge(v_, 0) for v_ in (red(v) for _, v in el) if not _nonneg_poly(S, v_)]
+        disjuncts = [[y for y in (red(r) for r in dj) if y is not S.true] + extra for dj in disjuncts]
+        loops = {k_: (red(a_), red(b_)) for k_, (a_, b_) in loops.items()}
+        wraps = {k_: [red(w_) for w_ in ws_] for k_, ws_ in (wraps or {}).items()}
+        hi, lo, dim = red(hi), red(lo), red(dim)
+        back = el
+    else:
+        back = []
+    allrels = [r for dj in disjuncts for r in dj if r is not S.false]
+    disjuncts = [dj for dj in disjuncts if S.false not in dj] or [[S.false]]
     syms = sorted((dim - hi).free_symbols | lo.free_symbols | set().union(*[r.free_symbols for r in allrels]) | set().union(*[(a - b).free_symbols for a, b in loops.values()]) |
                   set().union(*[w.free_symbols for ws in wraps.values() for w in ws]), key=str)
     if len(syms) > 6:
@@ -1249,14 +1278,14 @@ def decide(S, lo, hi, dim, rels, loops, unparsed, extra_nonempty=(), disjuncts=N
                 continue
             if wrapped:
                 return ("REFUTED", "the bound of the loop on '%s' is computed in unsigned arithmetic and wraps around below zero, so the index runs past the dimension" % sorted(wrapped)[0],
-                        {str(k): int(v) for k, v in env.items()})
+                        _full_env(S, env, back))
             h, d, l = hi.subs(env), dim.subs(env), lo.subs(env)
             if not (h.is_number and d.is_number and l.is_number):
                 continue
             if h >= d:
-                return ("REFUTED", "index reaches %s while the dimension is %s" % (h, d), {str(k): int(v) for k, v in env.items()})
+                return ("REFUTED", "index reaches %s while the dimension is %s" % (h, d), _full_env(S, env, back))
             if l < 0:
-                return ("REFUTED", "index reaches %s (below 0: unsigned wrap-around)" % l, {str(k): int(v) for k, v in env.items()})
+                return ("REFUTED", "index reaches %s (below 0: unsigned wrap-around)" % l, _full_env(S, env, back))
         except Exception:
             continue
     return ("UNKNOWN", "neither proved nor refuted on the witness grid", None)
